@@ -122,6 +122,7 @@ def parseOp (s : S) (line : String) : Option (Op Rat) :=
   | ["setcopy", t, b] => do some (.setCopy (← parseRef t) (← parseBArg b))
   | ["slice", t, i, j] => do some (.slice (← parseRef t) (← i.toNat?) (← j.toNat?))
   | ["item", t, i] => do some (.item (← parseRef t) (← i.toNat?))
+  | ["iteritem", t, i] => do some (.item (← parseRef t) (← i.toNat?))   -- the i-th object of `for item in set`
   | ["setsx", t, i, x] => do some (.setSetX (← parseRef t) (← i.toNat?) (← parseNum x))
   | ["setsxall", t, xs] => do some (.setSetXAll (← parseRef t) (← (splitComma xs).mapM parseNum))
   | ["reset", a, p] => do some (.reset (← parseRef a) (← p.toNat?))
